@@ -146,7 +146,8 @@ def value_kind(v):
 # ---------------------------------------------------------------------------
 # digests: {entry: {field: normalised value}} per group
 # ---------------------------------------------------------------------------
-CONFIG = {'xray_elements': None}     # None = every element; else a set of symbols (quick tier)
+CONFIG = {'xray_elements': None,     # None = every element; else a set of symbols (quick tier)
+          'force_all': True}         # force and digest every public group at the end of a history
 XRAY_QUICK = ('n', 'H', 'C', 'O', 'Na', 'Cl', 'Si', 'Fe', 'Ni', 'Cu', 'Gd', 'Au', 'Pb', 'At', 'U', 'Cm', 'Og')
 SHARED = '<record>'     # key of a sub-dictionary of fields shared by several entries (expanded by diff_digests)
 
@@ -506,14 +507,17 @@ def apply_mutation(T, g, variant):
     elif (g, variant) == ('magff', 'inplace'):
         Fe.magnetic_ff[2].j0 = (1, 2, 3, 4, 5, 6, 7)
         Fe.magnetic_ff[9] = Fe.magnetic_ff[3]
-        del T.Co.magnetic_ff[0]
+        T.Co.magnetic_ff.pop(0, None)
+        T.Co.magnetic_ff[1].j2 = (0,) * 7
     elif (g, variant) == ('magff', 'assign'):
         T.H.magnetic_ff = {}
         T.Ni.magnetic_ff = {2: T.Ni.magnetic_ff[2]}
     elif (g, variant) == ('activation', 'inplace'):
         Fe[58].neutron_activation[0].thermalXS = 99.
         Fe[58].neutron_activation.append(Fe[58].neutron_activation[0])
-        del T.Co[59].neutron_activation[-1]
+        if len(T.Co[59].neutron_activation) > 1:
+            del T.Co[59].neutron_activation[-1]
+        T.Co[59].neutron_activation[0].Thalf_hrs = 1.
     elif (g, variant) == ('activation', 'assign'):
         Fe[56].neutron_activation = []
         T.Au[197].neutron_activation = T.Au[197].neutron_activation[:1]
@@ -811,7 +815,7 @@ class Env(object):
         self.event = None
         self.max_entries = max_entries
         self.heap_stats = {}
-        self.pub_touched = set()
+        self.harness = []
 
     # -- bookkeeping ---------------------------------------------------
     def abstract_state(self):
@@ -995,9 +999,13 @@ class Env(object):
         except Exception as exc:
             # a legal mutation that cannot be carried out is a harness/model problem unless the library raised it
             self.counts['mutation_exceptions'] += 1
-            self.violation('mutation-exception', 'c', T, g,
-                           'mutation %s raised %s: %s' % (':'.join(p), type(exc).__name__, str(exc)[:120]),
-                           symptom='EXC:' + type(exc).__name__, traceback=traceback.format_exc()[-600:])
+            text = traceback.format_exc()
+            if (os.sep + 'periodictable' + os.sep) in text:
+                self.violation('mutation-exception', 'c', T, g,
+                               'mutation %s raised %s through the library: %s' % (':'.join(p), type(exc).__name__, str(exc)[:120]),
+                               symptom='EXC:' + type(exc).__name__, traceback=text[-600:])
+            else:
+                self.harness.append('mutation %s could not be applied (harness): %s' % (':'.join(p), text[-400:]))
         self.mutated[T].add(g)
         self.mutated[T].update(DEPENDENTS.get(g, ()))
         if own_pre is not None:
@@ -1116,12 +1124,23 @@ class Env(object):
         import periodictable as pt
         self.index += 1
         self.event = '<end of history>'
-        pend = pending_groups()
-        self.counts['public_groups_forced_at_end'] += len(pend)
+        st = loader_state()
+        pend = pending_groups(st)
+        # a lazy group is untouched when every one of its class attributes is still the pending delayed-load
+        # property and no private table initialised it; the quick tier leaves such groups alone
+        skip = set()
+        if not CONFIG.get('force_all', True):
+            for g in LAZY:
+                if all(k == 'pending' for k in st[g]) and not any(g in self.inited[T] for T in self.tables):
+                    skip.add(g)
+        self.counts['public_groups_forced_at_end'] += len(set(pend) - skip)
+        self.counts['public_groups_left_untouched'] += len(skip)
         # (a)/(c): the public table, after forcing every load, serves the canonical values
         for name, want in sorted(self.canon['events'].items()):
             if name.startswith('pub.read:'):
                 _, g, r = name.split(':')
+                if g in skip:
+                    continue
                 self.counts['public_event_comparisons'] += 1
                 v = safe(lambda: READS[g][r](pt.elements))
                 if v != want:
@@ -1129,7 +1148,8 @@ class Env(object):
                                    'final public %s = %s, canonical %s' % (name, short(v, 70), short(want, 70)),
                                    symptom=value_kind(v), entries=[(name, 'value', v, want)], final=True)
         for g in GROUPS:
-            self.compare_digest('public', pt.elements, g, 'public-digest', 'a/c', 'end of history')
+            if g not in skip:
+                self.compare_digest('public', pt.elements, g, 'public-digest', 'a/c', 'end of history')
         # (b)/(c): every comparable group of every private table still equals canonical
         for T, tb in sorted(self.tables.items()):
             for g in GROUPS:
@@ -1138,7 +1158,7 @@ class Env(object):
         # (d): heap walk
         if heap:
             tabs = collections.OrderedDict()
-            tabs['public'] = (pt.elements, set(GROUPS))
+            tabs['public'] = (pt.elements, set(GROUPS) - skip)
             for T, tb in sorted(self.tables.items()):
                 tabs[T] = (tb, set(self.inited[T]))
             recs, foreign, stats = heap_walk(tabs, dataless=self.canon.get('dataless_neutron', ()))
@@ -1174,7 +1194,7 @@ class Env(object):
     def result(self):
         return {'violations': self.viol, 'counts': dict(self.counts), 'early_inits': self.early_inits,
                 'late_inits': self.late_inits, 'transitions': self.transitions, 'skipped': self.skipped,
-                'heap_stats': self.heap_stats, 'pid': os.getpid()}
+                'heap_stats': self.heap_stats, 'harness': self.harness, 'pid': os.getpid()}
 
 
 def _all_lost_own_record(diffs):
@@ -1214,6 +1234,7 @@ def canonical():
     """Reference values: pristine interpreter, each lazy group read once through an element in
     registration order, then every public event and the full digest."""
     import periodictable as pt
+    CONFIG['xray_elements'] = None      # the canonical digest is always complete
     el = pt.elements
     el.Fe.covalent_radius
     el.Fe.crystal_structure
@@ -1325,6 +1346,7 @@ def fresh_main():
                 canon = pickle.load(f)
             xs = job.get('xray_elements')
             CONFIG['xray_elements'] = set(xs) if xs else None
+            CONFIG['force_all'] = job.get('force_all', True)
             r = play(job['history'], canon, heap=job.get('heap', True))
             r['where'] = where
             res = ('ok', r)
